@@ -174,11 +174,14 @@ func (b *CircuitBreaker) tryAcquire() (allowed, acquired bool) {
 	}
 
 	if state == Open {
-		if b.opts.clock().UnixNano() < b.openUntil.Load() {
+		// decide under the lock on the state as it is now: another probe may have
+		// re-opened (or closed) the breaker since the read above
+		switch b.openToHalfOpen() {
+		case Closed:
+			return true, false
+		case Open:
 			return false, false
 		}
-
-		b.toHalfOpen()
 	}
 
 	select {
@@ -229,9 +232,7 @@ func (b *CircuitBreaker) record(success bool) {
 	}
 
 	// enough samples with an acceptable failure rate: recover if probing
-	if b.State() == HalfOpen {
-		b.toClosed()
-	}
+	b.halfOpenToClosed()
 }
 
 // withFallback invokes the fallback with err if one is provided, otherwise
@@ -303,10 +304,40 @@ func (b *CircuitBreaker) toOpen() {
 	b.transitionTo(Open)
 }
 
-func (b *CircuitBreaker) toHalfOpen() {
-	b.transitionTo(HalfOpen)
+// openToHalfOpen moves Open to HalfOpen once the open timeout has passed. Both the
+// source state and the deadline are validated under the lock, so a caller acting
+// on a stale read can neither cut a fresh open period short nor pull a recovered
+// breaker back to HalfOpen. It returns the state the breaker is in afterwards.
+func (b *CircuitBreaker) openToHalfOpen() State {
+	b.mu.Lock()
+	defer b.mu.Unlock()
+
+	state := State(b.state.Load())
+	if state != Open {
+		return state
+	}
+
+	if b.opts.clock().UnixNano() < b.openUntil.Load() {
+		return Open
+	}
+
+	// reset the window so probing evaluates fresh samples
+	b.buckets.reset()
+	b.state.Store(int32(HalfOpen))
+	return HalfOpen
 }
 
-func (b *CircuitBreaker) toClosed() {
-	b.transitionTo(Closed)
+// halfOpenToClosed closes the breaker only if it is still HalfOpen under the lock;
+// a concurrent failing probe that already re-opened it wins.
+func (b *CircuitBreaker) halfOpenToClosed() {
+	b.mu.Lock()
+	defer b.mu.Unlock()
+
+	if State(b.state.Load()) != HalfOpen {
+		return
+	}
+
+	// reset the window so the closed state starts from fresh samples
+	b.buckets.reset()
+	b.state.Store(int32(Closed))
 }
